@@ -541,6 +541,42 @@ CAMPAIGNS['C07'].append(camp(
     'directory changes between builds (a relative path names another file '
     'after chdir, the same file is named by another relative path)',
     post='tag_all:C07', weight=0.6))
+CAMPAIGNS['C09'].append(
+    camp('c09-race-rollback', 'race', {'p_rollback': 1.0, 'p_file': 0.8},
+         'a key raced for by a thread that reuses a cached subtree and a '
+         'thread that calls it directly (also with other arguments), then '
+         'the root function raises: whoever won, the pre-build state is '
+         'back (model-free: pre/post equality of every file and directory)',
+         nontrivial=nt_threads, post='tag_all:C09', weight=0.5))
+CAMPAIGNS['C16'].append(camp(
+    'c16-overlap', 'C16',
+    dict(OVERLAP, p_anc_target=0.5, n_steps=(3, 6), p_clean_step=0.25,
+         p_mutate_step=0.15),
+    'targets above / below other targets of the same build (one of the two '
+    'calls failing), over foreign files: what the cache file says about '
+    'created directories '
+    'and failed targets after such builds is what the next build and clean '
+    'act on (a directory at the path of a failed target, a failed target '
+    'below a successful one)', post='tag_all:C16', weight=0.7))
+CAMPAIGNS['C04'].append(
+    camp('c04-threads', 'threads',
+         {'p_in_sub': 0.0, 'p_in_file': 0.0, 'p_fail': 0.5,
+          'n_threads': (2, 4)},
+         'the view after concurrent work: 2-4 root-level simulated threads '
+         'build and fail to build files in shared new directory chains while '
+         'other threads look at those directories (answers not compared: '
+         'they depend on the schedule); after the threads were joined a '
+         'probe battery over all outputs and their ancestors must give the '
+         'from-scratch answers (directories created only for failed outputs '
+         'are gone)', nontrivial=nt_threads, post='tag_all:C04', weight=0.6))
+CAMPAIGNS['C13'].append(
+    camp('c13-threads-line', 'threads', {'p_line': 1.0, 'p_tamper': 0.5},
+         'HASH and METADATA comparisons computed concurrently: 2-4 simulated '
+         'threads build and read files with line-level preemption inside the '
+         'package; the recorded comparison results must be those of the '
+         'files (an unchanged rebuild re-executes nothing, tampering is '
+         'detected)', nontrivial=nt_threads, chunk=4, post='tag_all:C13',
+         weight=0.6))
 RACE_RULE = ('a key (build_file path / subbuild name+arguments) performed '
              'directly by one thread while another thread reuses or '
              're-executes a cached subtree (depth 1-2) that contains it; '
